@@ -217,6 +217,8 @@ def run(ctx):
     SP.prove_span_balance(ctx)
     import props.C03_lines as LN
     LN.prove_cue_lines(ctx)
+    import props.C07_write as WS
+    WS.prove_sami_write_skeleton(ctx)         # (no cue is created: a new document for every write, one paragraph per caption)
     ctx.bounded("escape_contracts", "xml.sax.saxutils.escape and WebVTTWriter._encode_illegal_characters on every string up to "
                 "length 5 (thorough: 6) over the metacharacter alphabets: no raw '<' (no '-->' for WebVTT), every '&' "
                 "starts one of the three entities, decoding gives the string back", lambda b: bounded_escape(ctx, b), exhaustive=True)
